@@ -1,6 +1,7 @@
 //! `verif` — the verification harness. See /verif/DESIGN.md.
 
 mod bersim;
+mod c08;
 mod c10;
 mod c12;
 mod c13;
@@ -27,6 +28,7 @@ fn main() {
         "C13" => c13::main(&parse_opts(&args[1..])),
         "C12" => c12::main(&parse_opts(&args[1..])),
         "C10" => c10::main(&parse_opts(&args[1..])),
+        "C08" => c08::main(&parse_opts(&args[1..])),
         "C17" => c17::main(&parse_opts(&args[1..])),
         "replay" => {
             let path = args.get(1).unwrap_or_else(|| usage());
@@ -43,6 +45,7 @@ fn main() {
                 }
                 (Some("histsim-decode"), _) => c10::replay_history(&body, path),
                 (Some("histsim-matrix"), _) => c17::replay(&body, path),
+                (Some("alistsim"), _) => c08::replay(&body, path),
                 (Some("bersim"), Some("C12")) => {
                     campaign::replay_file(&body, path, &|c, o| c12::oracle_c12(c, o))
                 }
